@@ -130,6 +130,10 @@ pub trait Prop {
         None
     }
     fn check(case: &Self::Case, obs: &mut Obs) -> Verdict;
+    /// Candidate simplifications for the greedy post-shrink (optional).
+    fn shrink(_case: &Self::Case) -> Vec<Self::Case> {
+        vec![]
+    }
     /// Extra evidence computed by the master after all legs (optional).
     fn extra_evidence(_tier: Tier) -> Value {
         Value::Null
@@ -318,6 +322,28 @@ impl Acc {
     }
 }
 
+/// Greedy delta-debugging on top of proptest's shrink: keep taking the first
+/// candidate simplification that still fails, until none does.
+fn post_shrink<P: Prop>(acc: &mut Acc, mut case: P::Case, mut msg: String) -> (P::Case, String) {
+    acc.frozen = true;
+    let mut budget = 6000_u32;
+    'outer: loop {
+        for cand in P::shrink(&case) {
+            if budget == 0 {
+                break 'outer;
+            }
+            budget -= 1;
+            if let Err(m) = acc.run_case::<P>(&cand) {
+                case = cand;
+                msg = m;
+                continue 'outer;
+            }
+        }
+        break;
+    }
+    (case, msg)
+}
+
 pub struct WorkerArgs {
     pub leg: String,
     pub tier: Tier,
@@ -361,8 +387,10 @@ pub fn worker<P: Prop>(a: &WorkerArgs) -> i32 {
                 Ok(()) => {}
                 Err(TestError::Fail(reason, minimal)) => {
                     let mut acc = acc.borrow_mut();
+                    let (minimal, msg) =
+                        post_shrink::<P>(&mut acc, minimal, reason.message().to_string());
                     acc.res.failure = Some(serde_json::to_value(&minimal).unwrap());
-                    acc.res.failure_message = reason.message().to_string();
+                    acc.res.failure_message = msg;
                 }
                 Err(TestError::Abort(reason)) => {
                     eprintln!("gv: generator aborted: {reason}");
@@ -381,8 +409,9 @@ pub fn worker<P: Prop>(a: &WorkerArgs) -> i32 {
                 let mut acc = acc.borrow_mut();
                 acc.res.enumerated += 1;
                 if let Err(m) = acc.run_case::<P>(&case) {
-                    acc.res.failure = Some(serde_json::to_value(&case).unwrap());
-                    acc.res.failure_message = m;
+                    let (minimal, msg) = post_shrink::<P>(&mut acc, case, m);
+                    acc.res.failure = Some(serde_json::to_value(&minimal).unwrap());
+                    acc.res.failure_message = msg;
                     break;
                 }
             }
@@ -531,8 +560,14 @@ fn violations_dir(id: &str) -> PathBuf {
 }
 
 fn write_violation(id: &str, case: &Value, message: &str, extra: Value) -> PathBuf {
-    let body = json!({"property": id, "case": case, "message": message, "detail": extra});
-    let bytes = serde_json::to_vec_pretty(&body).unwrap();
+    let bytes = format!(
+        "{{\n \"property\": {},\n \"message\": {},\n \"detail\": {},\n \"case\": {}\n}}\n",
+        serde_json::to_string(id).unwrap(),
+        serde_json::to_string(message).unwrap(),
+        serde_json::to_string(&extra).unwrap(),
+        serde_json::to_string(case).unwrap()
+    )
+    .into_bytes();
     let h = sys::hash_bytes(&serde_json::to_vec(case).unwrap());
     let p = violations_dir(id).join(format!("{h:016x}.json"));
     let _ = std::fs::write(&p, bytes);
@@ -561,6 +596,7 @@ pub fn run<P: Prop>(tier: Tier) -> i32 {
             .unwrap_or(tier.pick(900, 6 * 3600)),
     );
 
+    let _ = std::fs::remove_dir_all(Path::new(VERIF).join("work").join("violations").join(id));
     let mut violations: Vec<(PathBuf, String)> = vec![];
     let mut inconclusive: Vec<String> = vec![];
     let mut known_total: BTreeMap<String, u64> = BTreeMap::new();
